@@ -10,7 +10,7 @@ CONSTANTS
   Atomic = TRUE
   Restamp = FALSE
   WithAbort = TRUE
-  MaxOps = 8
+  MaxOps = 10
   Record = FALSE
   Probing = FALSE
   NoOpSteps = FALSE
